@@ -2,7 +2,7 @@
 PROP = {
     "lean_modules": ["ConduitModel.Props.C15", "ConduitModel.Facts.C15"],
     "jobs": [
-        {"harness": "h_ctl", "comp": "import", "n_quick": 2500, "n_thorough": 60000, "timeout": 3000,
+        {"harness": "h_ctl", "comp": "import", "n_quick": 2500, "n_thorough": 15000, "timeout": 3000,
          "why": "chains of Plan + ApplyPlan of generated pipeline configs (nested processors, list insert/delete/reorder, field, condition, "
                 "worker and type changes, invalid plugins, failing store-operation index) on the REAL provisioning.Service + services: result "
                 "class, planned changes, Export, state dumps, reload and raw keys differ from the model, or the C15 monitor (converges, "
